@@ -159,7 +159,10 @@ def structure_recipes(seed):
         recI = xtal.gen_molecular(rng, rowF, nmols=1, sizes=(3,), n=48, with_h=False)
     first = recI["asym"][0]
     first["occ"] = 7
-    recI["asym"].append({"z": 16, "p": list(first["p"]), "occ": 5, "label": "S%d" % (len(recI["asym"]) + 1)})
+    # (the second occupant is listed right after the first, not at the end of the list)
+    recI["asym"].insert(1, {"z": 16, "p": list(first["p"]), "occ": 5, "label": "S%d" % (len(recI["asym"]) + 1)})
+    recI["mols"] = [[i if i == 1 else i + 1 for i in m] for m in recI.get("mols", [])]
+    recI["bonds"] = [[a_ if a_ == 1 else a_ + 1, b_ if b_ == 1 else b_ + 1] for a_, b_ in recI.get("bonds", [])]
     recI["via"] = "memory"
     recI["noswitch"] = True
     out.append(recI)
